@@ -121,7 +121,8 @@ fn opt_fn(rng: &mut StdRng, obj: &mut Vec<(String, J)>, key: &str, v: J, absent:
 }
 
 fn num32(rng: &mut StdRng) -> u64 {
-    match rng.gen_range(0..6) { 0 => 0, 1 => 1, 2 => u32::MAX as u64, 3 => 60_000, _ => rng.gen_range(0..10_000_000) }
+    // includes values above 2^24 that a detour through f32 would not preserve, and the no-clock sentinel
+    match rng.gen_range(0..9) { 0 => 0, 1 => 1, 2 => u32::MAX as u64, 3 => 60_000, 4 => 2_147_483_647, 5 => 16_777_217, 6 => rng.gen_range(16_777_216..4_294_967_295u64), 7 => 259_187_345, _ => rng.gen_range(0..10_000_000) }
 }
 
 fn game_moves(rng: &mut StdRng) -> (Vec<String>, Pos) {
